@@ -695,6 +695,21 @@ def _a7_closure_unit(prog: Program, u: Unit):
                                                        for t in st2.targets):
                     exprs.append(st2.value)
                     work += [y.id for y in ast.walk(st2.value) if isinstance(y, ast.Name)]
+            # a sibling closure of the enclosing method that the stored value calls: what it
+            # reads from the enclosing call is read by the stored value too
+            for fn2 in ast.walk(outer.node):
+                if isinstance(fn2, ast.FunctionDef) and fn2.name == n and fn2 is not u.node \
+                        and fn2 is not outer.node:
+                    own = {a.arg for a in fn2.args.args}
+                    for b in fn2.body:
+                        for y in ast.walk(b):
+                            if isinstance(y, ast.expr) and not isinstance(y, (ast.Name, ast.Constant)):
+                                pass
+                        exprs.append(b if isinstance(b, ast.expr) else ast.Tuple(
+                            elts=[y for y in ast.walk(b) if isinstance(y, ast.Name)
+                                  and isinstance(y.ctx, ast.Load) and y.id not in own], ctx=ast.Load()))
+                        work += [y.id for y in ast.walk(b) if isinstance(y, ast.Name)
+                                 and isinstance(y.ctx, ast.Load) and y.id not in own]
         needed = set()
         for e in exprs:
             needed |= _attr_chains(e, (set(outer.params) | f_params) - {"self"})
